@@ -37,7 +37,7 @@ func c13Err(err error) int {
 	return 3
 }
 
-const c13NOps = 10
+const c13NOps = 15
 
 // c13Do runs operation o on the real store.
 func c13Do(s *Storage, k string, o c13Op) (r c13Out) {
@@ -67,6 +67,22 @@ func c13Do(s *Storage, k string, o c13Op) (r c13Out) {
 	case 9:
 		ok, err := s.Exists(k)
 		r.ok, r.err = ok, c13Err(err)
+	case 10:
+		v, err := s.GetHash(k, "f")
+		r.val, r.err = v, c13Err(err)
+	case 11: // only whether the key counts as present is compared
+		_, err := s.GetExpiration(k)
+		r.err = c13Err(err)
+	case 12:
+		l, err := s.GetList(k)
+		if err == nil {
+			r.val = l
+		}
+		r.err = c13Err(err)
+	case 13:
+		r.err = c13Err(s.RemoveFromList(k, o.v))
+	case 14:
+		r.err = c13Err(s.DeleteHash(k, "f"))
 	}
 	return r
 }
@@ -162,6 +178,67 @@ func c13RefDo(st *c13Item, now int64, o c13Op) (c13Out, *c13Item) {
 		return r, live
 	case 9:
 		r.ok = live != nil
+		return r, live
+	case 10:
+		if live == nil {
+			r.err = 1
+			return r, live
+		}
+		h, isH := live.val.(map[string]any)
+		if !isH {
+			r.err = 2
+			return r, live
+		}
+		if hv, ok := h["f"]; ok {
+			r.val = hv
+		} else {
+			r.err = 1
+		}
+		return r, live
+	case 11:
+		if live == nil {
+			r.err = 1
+		}
+		return r, live
+	case 12:
+		if live == nil {
+			r.err = 1
+			return r, live
+		}
+		l, isL := live.val.([]any)
+		if !isL {
+			r.err = 2
+			return r, live
+		}
+		r.val = l
+		return r, live
+	case 13:
+		if live == nil {
+			return r, nil
+		}
+		l, isL := live.val.([]any)
+		if !isL {
+			r.err = 2
+			return r, live
+		}
+		nl := []any{}
+		for _, x := range l {
+			if !c13Same(x, o.v) {
+				nl = append(nl, x)
+			}
+		}
+		live.val = nl
+		return r, live
+	case 14:
+		if live == nil {
+			return r, nil
+		}
+		h, isH := live.val.(map[string]any)
+		if !isH {
+			r.err = 2
+			return r, live
+		}
+		delete(h, "f")
 		return r, live
 	}
 	return r, live
